@@ -384,6 +384,8 @@ def evaluate(sc, binary, cases, tag, want_trace=False):
     if rc != 0:
         return None, None, "harness failed rc=%d: %s %s" % (rc, so[-2000:], se[-2000:]), None
     results = [json.loads(l) for l in open(outp)]
+    for r in results:
+        r["steps"] = r.get("steps") or []      # a history without events
     errors, terms, idx = {}, [], []
     for i, (c, r) in enumerate(zip(cases, results)):
         if r.get("panic"):
@@ -611,7 +613,7 @@ def main(argv):
                 continue
             seen.add(cls)
             pred = (lambda er: is_hard(er)) if cls == "other" else (lambda er: is_hard(er))
-            small = cases[i] if i < len(corpus) else shrink(sc, binary, cases[i], pred)
+            small = cases[i] if (i < len(corpus) and cls != "other") else shrink(sc, binary, cases[i], pred, budget=8)
             errs, _, f3, results = evaluate(sc, binary, [small], "min")
             if f3 or 0 not in errs or not is_hard(errs[0]):
                 small, errs, results = cases[i], {0: e}, [all_res[i]]
